@@ -162,14 +162,21 @@ func (w *World) VerifyRefinement(implKey string) (*VC, error) {
 		}
 	}
 	// results
+	var resTVs []TV
+	defer func() {}()
 	for i := 0; i < sig.Results().Len(); i++ {
 		rt := sig.Results().At(i).Type()
 		c := vc.declare(fmt.Sprintf("rf!r%d", i), w.sortOf(rt))
 		vc.assume(True, vc.wfTerm(c, rt, nil, nil))
 		tv := TV{T: c, Ty: rt}
+		resTVs = append(resTVs, tv)
 		if nm := sig.Results().At(i).Name(); nm != "" && nm != "_" {
 			implPost.vars[nm] = tv
 			tgtPost.vars[nm] = tv
+		}
+		if sig.Results().Len() > 1 && i == sig.Results().Len()-1 {
+			implPost.vars["result"] = TV{Fs: resTVs, Ty: sig.Results()}
+			tgtPost.vars["result"] = TV{Fs: resTVs, Ty: sig.Results()}
 		}
 		if sig.Results().Len() == 1 {
 			implPost.vars["result"] = tv
